@@ -67,6 +67,15 @@ Proof.
     [exact (cell_roundtrip ser deser Hb Hrt c doc H)|exact (cell_shape ser Hb c doc H)].
 Qed.
 
+(* a well-formed bag of cells whose number of roots is not one -- zero roots
+   included -- is reported as an error (cells[0] is an explicit panic site of the
+   model; the refuted "more than one" design is in Proofs/C20History.v) *)
+Theorem C20_cell_root_count_is_error :
+  forall (cell : Type) (deser : list N -> res (list cell)) p bs cs,
+  hex_decode (trim_quotes p) = Some bs -> deser bs = Ok cs -> length cs <> 1%nat ->
+  parse_cell deser p = Err EOther.
+Proof. exact @parse_cell_root_count. Qed.
+
 (* boc.BitString: every bit list, empty and 1023 bits included *)
 Theorem C20_bitstring_roundtrip : forall l : bits, parse_bitstring (print_bitstring l) = Ok l.
 Proof. exact bitstring_roundtrip. Qed.
